@@ -23,7 +23,8 @@ def gen_job(rng, name, never_ok=True, p_forever=0.2, p_exc=0.3, durations=(0, 1,
     never = never_ok and forever and rng.random() < 0.6
     return dict(kind="job", name=name, d=None if never else rng.choice(durations), k=rng.choice([0, 0, 0, 1, 2, 3]),
                 exc=(not never) and rng.random() < p_exc, crit=rng.random() < 0.5, forever=forever,
-                ch=rng.choice([0, 0, 0, 2, 3]), sd=rng.choice([0, 0, 0, 1, 3]), h=0, coro=rng.random() < 0.3, req=[])
+                ch=rng.choice([0, 0, 0, 2, 3]), sd=rng.choice([0, 0, 0, 1, 3]), h=0, coro=rng.random() < 0.3, req=[],
+                peek=rng.choice(["exit_jobs", "list", "dot", "debrief"]) if rng.random() < 0.06 else None)
 
 
 def contains_never(node):
@@ -170,6 +171,77 @@ def add_late(sc, rng):
     ops = ["exit_jobs", "list", "dot", "check", "succ", "pred"]
     sc["late"] = dict(edges=edges, removed=removed, inspect=rng.sample(ops, rng.randint(1, 3)))
     return sc
+
+
+def add_between(sc, rng):
+    """a `rerun` scenario in which the user edits the objects between the two runs: `sc["tree"]` is what the second
+    (judged) run sees; `between` says how the first run differed (attribute values, jobs not yet added, edges not yet
+    there, edges still there) and what is called in between"""
+    sc = copy.deepcopy(sc)
+    attrs, edges, removed, added = {}, [], [], []
+    for n, par in walk(sc["tree"]):
+        if n["kind"] == "sched":
+            f = {}
+            if rng.random() < 0.3:
+                f["T"] = rng.choice([None, 1, 2, 5])
+            if rng.random() < 0.3:
+                f["w"] = rng.choice([None, 1, 2, 3])
+            if par is not None and not n.get("pure") and rng.random() < 0.15:
+                f["crit"] = not n["crit"]
+            if f:
+                attrs[n["name"]] = f
+            kids = n.get("children") or []
+            names = [k["name"] for k in kids]
+            # (now and then the scheduler is still empty during the first run: all its jobs join afterwards)
+            all_later = rng.random() < 0.12 and all(k["kind"] == "job" for k in kids)
+            for i, k in enumerate(kids):
+                for r in k.get("req", []):
+                    if rng.random() < 0.3:
+                        edges.append([k["name"], r])
+                for r in names[:i]:
+                    if r not in k.get("req", []) and rng.random() < 0.1:
+                        removed.append([k["name"], r])
+                if k["kind"] == "job" and (all_later or rng.random() < 0.12):
+                    added.append(k["name"])
+        else:
+            f = {}
+            if rng.random() < 0.1:
+                f["crit"] = not n["crit"]
+            if n.get("d") is not None and rng.random() < 0.1:
+                f["forever"] = not n["forever"]
+            if f:
+                attrs[n["name"]] = f
+    nested = [n["name"] for n, par in walk(sc["tree"]) if n["kind"] == "sched" and par is not None and n.get("children")]
+    first_root = rng.choice(nested) if nested and rng.random() < 0.3 else None
+    sc["rerun"] = True
+    sc["between"] = dict(attrs=attrs, edges=edges, removed=removed, added_jobs=added, first_root=first_root,
+                         inspect=rng.sample(["exit_jobs", "list", "dot", "check", "debrief"], rng.randint(0, 2)),
+                         shutdown=rng.random() < 0.2)
+    return sc
+
+
+def first_run_tree(sc):
+    """the tree as the FIRST run of a `rerun` scenario with `between` sees it"""
+    b = sc.get("between") or {}
+    tree = copy.deepcopy(sc["tree"])
+    later = set(b.get("added_jobs", []))
+    late_edges = {tuple(e) for e in b.get("edges", [])}
+    for n, _ in walk(tree):
+        for f, v in b.get("attrs", {}).get(n["name"], {}).items():
+            n[f] = v
+        if n.get("children") is not None:
+            n["children"] = [c for c in n["children"] if c["name"] not in later]
+        n["req"] = [r for r in n.get("req", []) if (n["name"], r) not in late_edges and r not in later]
+    for a, r in b.get("removed", []):
+        for n, _ in walk(tree):
+            if n["name"] == a and r not in n["req"] and r not in later:
+                n["req"] = n["req"] + [r]
+    root = b.get("first_root")
+    if root:
+        for n, _ in walk(tree):
+            if n["name"] == root:
+                return n
+    return tree
 
 
 def flatten_variant(sc):
